@@ -8,6 +8,7 @@ mod oracle;
 mod payload;
 mod prog;
 mod runner;
+mod seq;
 
 use std::io::Write;
 
@@ -103,7 +104,7 @@ fn main() {
                 .collect();
             println!(
                 "{}",
-                serde_json::json!({"total": s.programs.len(), "groups": v, "rule": s.rule, "cfg": s.cfg})
+                serde_json::json!({"total": s.programs.len(), "groups": v, "rule": s.rule, "cfg": s.cfg, "seq_rule": seq::suites(&args[2], args[3] == "thorough").1})
             );
         }
         "run" => {
@@ -151,6 +152,44 @@ fn main() {
                 writeln!(f, "{}", serde_json::to_string(&rec).unwrap()).unwrap();
                 f.flush().unwrap();
             }
+            writeln!(f, "{}", serde_json::json!({"shard_done": shard})).unwrap();
+        }
+        "seq" => {
+            let shard = arg(&args, "--shard").unwrap();
+            let (i, n) = shard.split_once('/').unwrap();
+            let (i, n): (usize, usize) = (i.parse().unwrap(), n.parse().unwrap());
+            let out = arg(&args, "--out").unwrap();
+            let mut f = std::fs::OpenOptions::new().create(true).append(true).open(&out).unwrap();
+            let mut k = kanal_verif_rt::ctl::knobs();
+            k.parallelism = 2;
+            kanal_verif_rt::ctl::set_knobs(k);
+            writeln!(f, "{}", serde_json::json!({"start": 0, "name": format!("sequential shard {shard}")})).unwrap();
+            *runner::PANIC_SINK.lock().unwrap() = Some((out.clone(), 0));
+            let st = seq::run(&args[2], args[3] == "thorough", (i, n));
+            *runner::PANIC_SINK.lock().unwrap() = None;
+            for v in &st.violations {
+                writeln!(f, "{}", serde_json::to_string(v).unwrap()).unwrap();
+            }
+            let mut sum = runner::ProgRecord {
+                index: 0,
+                name: format!("sequential shard {shard}"),
+                build: build_name().into(),
+                executions: st.sequences,
+                completed: true,
+                model_states: st.model_states,
+                model_transitions: st.model_transitions,
+                model_outcomes: st.model_outcomes,
+                impl_outcomes: st.sequences,
+                distinct_histories: st.distinct.len() as u64,
+                ..Default::default()
+            };
+            if let Some(s) = st.sample {
+                sum.sample = s.sample;
+                sum.program = s.program;
+            }
+            let mut v = serde_json::to_value(&sum).unwrap();
+            v["seq"] = serde_json::json!({"sequences": st.sequences, "not_enabled_blocking": st.skipped_blocking, "max_depth": st.max_depth});
+            writeln!(f, "{}", v).unwrap();
             writeln!(f, "{}", serde_json::json!({"shard_done": shard})).unwrap();
         }
         "one" => {
